@@ -31,7 +31,8 @@ LEVEL_TEXT = ("Every fault site of each generated simulation is faulted exactly 
               "observations under synchronous / real-thread / controlled schedulers, calibrations faulted at the k-th "
               "fitness evaluation. Oracle: the starting call (or load/compute) raises; message, type (outside optimiser "
               "threads), group and model name - and in sequential observation the failing run's parameter values - reach "
-              "the caller; no later sequential run executes; no result is returned or loadable.")
+              "the caller; no later sequential run executes; no result is returned or loadable."
+              " Faults are also injected through the legacy entry points pyxel.exposure_mode / pyxel.observation_mode, in seeded runs (pipeline_seed set) and inside a model's own seeded block.")
 LEVEL_NOTE = ("Single-fault bound; faults are exceptions raised by a probe model (the dispatcher cannot distinguish them "
               "from a real model's exception). Identity is searched in str(exc), __notes__ and the cause/context chain.")
 DESIGN_REF = "DESIGN.md section 4, C09"
